@@ -69,4 +69,92 @@ theorem applyUnary_proper (a : Prim α) (op : UnOp) (v : Prim α) (he : applyUna
   | number x => cases op <;> simp_all [applyUnary]; subst he; rfl
   | string s => cases op <;> simp_all [applyUnary]
 
+/-! ### the operator core (restated as the property theorems of `Props/C19.lean`) -/
+
+theorem progress_binary (a b : Prim α) (op : BinOp) (h : a.kind.canApplyBinary op b.kind = true)
+    (ha : a.proper = true) (hb : b.proper = true)
+    (c : OpErr) (he : applyBinary a op b = .error c) : c = .divisionByZero ∨ c = .overflow := by
+  cases a with
+  | other k => cases k <;> simp_all [Prim.kind, Kind.canApplyBinary, Prim.proper, Kind.isOther]
+  | number x =>
+    cases b <;> cases op <;>
+      simp_all [Prim.kind, Kind.canApplyBinary, canBinArith, isLogic, Kind.isNumeric, applyBinary, applyBinNumber, floatArith, checkedDiv] <;>
+      (try (split at he <;> simp_all))
+    all_goals (rename_i k; cases k <;> simp_all [Kind.isNumeric, Prim.proper, Kind.isOther])
+  | integer i =>
+    cases b <;> cases op <;>
+      simp_all [Prim.kind, Kind.canApplyBinary, canBinArith, isLogic, Kind.isNumeric, applyBinary, applyBinInteger, floatArith, checkedDiv, ofI64] <;>
+      (try (split at he <;> simp_all))
+    all_goals (rename_i k; cases k <;> simp_all [Kind.isNumeric, Prim.proper, Kind.isOther])
+  | pint u =>
+    cases b <;> cases op <;>
+      simp_all [Prim.kind, Kind.canApplyBinary, canBinArith, isLogic, Kind.isNumeric, applyBinary, applyBinPint, floatArith, checkedDiv, ofI64, ofU64] <;>
+      (try (split at he <;> simp_all))
+    all_goals (rename_i k; cases k <;> simp_all [Kind.isNumeric, Prim.proper, Kind.isOther])
+  | boolean x =>
+    cases b <;> cases op <;>
+      simp_all [Prim.kind, Kind.canApplyBinary, canBinBool, isLogic, Kind.isNumeric, applyBinary, applyBinBoolean, applyBinNumber, floatArith, checkedDiv, BEq.beq, Kind.beq] <;>
+      (try (split at he <;> simp_all))
+    all_goals (rename_i k; cases k <;> simp_all [Kind.isNumeric, Kind.beq, Prim.proper, Kind.isOther])
+  | string s =>
+    cases b <;> cases op <;>
+      simp_all [Prim.kind, Kind.canApplyBinary, canBinString, applyBinary, applyBinString, BEq.beq, Kind.beq]
+    all_goals (rename_i k; cases k <;> simp_all [Kind.beq, Prim.proper, Kind.isOther])
+
+theorem preservation_binary (a b : Prim α) (op : BinOp) (ha : a.proper = true) (hb : b.proper = true)
+    (v : Prim α) (he : applyBinary a op b = .ok v) : v.kind = binResultKind a.kind op b.kind := by
+  cases a with
+  | other k => cases k <;> simp_all [applyBinary]
+  | number x =>
+    cases b <;> cases op <;>
+      simp_all [Prim.kind, binResultKind, isLogic, Kind.isNumeric, applyBinary, applyBinNumber, floatArith, checkedDiv, BEq.beq, Kind.beq] <;>
+      (try (split at he <;> simp_all)) <;> (try (subst he; rfl))
+  | integer i =>
+    cases b <;> cases op <;>
+      simp_all [Prim.kind, binResultKind, isLogic, Kind.isNumeric, applyBinary, applyBinInteger, floatArith, checkedDiv, ofI64, BEq.beq, Kind.beq] <;>
+      (try (split at he <;> simp_all)) <;> (try (subst he; rfl))
+  | pint u =>
+    cases b <;> cases op <;>
+      simp_all [Prim.kind, binResultKind, isLogic, Kind.isNumeric, applyBinary, applyBinPint, floatArith, checkedDiv, ofI64, ofU64, BEq.beq, Kind.beq] <;>
+      (try (split at he <;> simp_all)) <;> (try (subst he; rfl))
+  | boolean x =>
+    cases b <;> cases op <;>
+      simp_all [Prim.kind, binResultKind, isLogic, Kind.isNumeric, applyBinary, applyBinBoolean, applyBinNumber, floatArith, checkedDiv, BEq.beq, Kind.beq] <;>
+      (try (split at he <;> simp_all)) <;> (try (subst he; rfl))
+  | string s =>
+    cases b <;> cases op <;>
+      simp_all [Prim.kind, binResultKind, isLogic, Kind.isNumeric, applyBinary, applyBinString, BEq.beq, Kind.beq] <;> (try (subst he; rfl))
+
+theorem progress_unary (a : Prim α) (op : UnOp) (h : a.kind.canApplyUnary op = true) (ha : a.proper = true)
+    (c : OpErr) (he : applyUnary op a = .error c) : c = .overflow := by
+  cases a with
+  | other k => cases k <;> simp_all [Prim.kind, Kind.canApplyUnary, Prim.proper, Kind.isOther]
+  | integer i => cases op <;> simp_all [Prim.kind, Kind.canApplyUnary, applyUnary, ofI64]; split at he <;> simp_all
+  | pint u => cases op <;> simp_all [Prim.kind, Kind.canApplyUnary, applyUnary, ofI64]; split at he <;> simp_all
+  | _ => cases op <;> simp_all [Prim.kind, Kind.canApplyUnary, applyUnary]
+
+theorem preservation_unary_partial (a : Prim α) (op : UnOp) (ha : a.proper = true)
+    (hx : ¬ (op = .neg ∧ a.kind = .pint)) (v : Prim α) (he : applyUnary op a = .ok v) : v.kind = unResultKind op a.kind := by
+  cases a with
+  | other k => cases k <;> simp_all [applyUnary, Prim.proper, Kind.isOther]
+  | integer i => cases op <;> simp_all [Prim.kind, applyUnary, unResultKind, ofI64]; split at he <;> simp_all; subst he; rfl
+  | pint u => cases op <;> simp_all [Prim.kind, applyUnary, unResultKind]
+  | boolean b => cases op <;> simp_all [Prim.kind, applyUnary, unResultKind] <;> (subst he; rfl)
+  | number x => cases op <;> simp_all [Prim.kind, applyUnary, unResultKind]; subst he; rfl
+  | string s => cases op <;> simp_all [Prim.kind, applyUnary, unResultKind]
+
+theorem preservation_unary_class (a : Prim α) (op : UnOp) (ha : a.proper = true)
+    (v : Prim α) (he : applyUnary op a = .ok v) : kindClass v.kind = kindClass (unResultKind op a.kind) := by
+  by_cases hx : op = .neg ∧ a.kind = .pint
+  · obtain ⟨rfl, hk⟩ := hx
+    cases a with
+    | pint u =>
+      simp only [applyUnary, ofI64] at he
+      split at he
+      · simp at he; subst he; rfl
+      · simp at he
+    | other k => simp [Prim.kind] at hk; subst hk; simp [Prim.proper, Kind.isOther] at ha
+    | _ => simp [Prim.kind] at hk
+  · rw [preservation_unary_partial a op ha hx v he]
+
 end Rooc.Proofs.Kinds
